@@ -435,7 +435,7 @@ func BuildResourceCircuitBreaker(res string, rulesOfRes []*Rule, oldResCbs []Cir
 	// very same fields. Only rules that continue no old rule by ID are matched by their fields alone.
 	idInOld := make(map[string]bool, len(oldResCbs))
 	for _, oldCb := range oldResCbs {
-		idInOld[oldCb.BoundRule().Id] = true
+		idInOld[loadedIdOf(oldCb)] = true
 	}
 	spokenFor := make(map[string]bool, len(rulesOfRes))
 	for _, r := range rulesOfRes {
@@ -455,10 +455,10 @@ func BuildResourceCircuitBreaker(res string, rulesOfRes []*Rule, oldResCbs []Cir
 				if reserved[oldCb] || !oldCb.BoundRule().isEqualsTo(r) {
 					continue
 				}
-				if pass == 0 && oldCb.BoundRule().Id != r.Id {
+				if pass == 0 && loadedIdOf(oldCb) != r.Id {
 					continue
 				}
-				if pass == 1 && spokenFor[oldCb.BoundRule().Id] {
+				if pass == 1 && spokenFor[loadedIdOf(oldCb)] {
 					continue
 				}
 				reserved[oldCb] = true
@@ -477,7 +477,7 @@ func BuildResourceCircuitBreaker(res string, rulesOfRes []*Rule, oldResCbs []Cir
 			continue
 		}
 		for _, oldCb := range oldResCbs {
-			if !reserved[oldCb] && keptFor[oldCb] == nil && oldCb.BoundRule().Id == r.Id && oldCb.BoundRule().isStatReusable(r) {
+			if !reserved[oldCb] && keptFor[oldCb] == nil && loadedIdOf(oldCb) == r.Id && oldCb.BoundRule().isStatReusable(r) {
 				keptFor[oldCb] = r
 				break
 			}
@@ -517,6 +517,10 @@ func BuildResourceCircuitBreaker(res string, rulesOfRes []*Rule, oldResCbs []Cir
 			// reuse the old cb
 			equalOldCb := oldResCbs[equalIdx]
 			newCbsOfRes = append(newCbsOfRes, equalOldCb)
+			// The rule object in the breaker stays; the Id it goes by from now on is the new rule's.
+			if b, ok := equalOldCb.(interface{ setLoadedRuleId(string) }); ok {
+				b.setLoadedRuleId(r.Id)
+			}
 			// remove old cb from oldResCbs
 			oldResCbs = append(oldResCbs[:equalIdx], oldResCbs[equalIdx+1:]...)
 			continue
